@@ -2010,6 +2010,15 @@ static int host_is_big_endian() {
 
             *section) set to the logical bitstream number */
 
+/* a scaled sample is clipped as a float before it is converted:
+   vorbis_ftoi of a value that does not fit an int is INT_MIN (or
+   undefined) whatever its sign, and decoded samples are not bounded */
+static float _clip_sample(float f,float lo,float hi){
+  if(f>hi)return(hi);
+  if(!(f>=lo))return(lo); /* also a NaN */
+  return(f);
+}
+
 long ov_read_filter(OggVorbis_File *vf,char *buffer,int length,
                     int bigendianp,int word,int sgned,int *bitstream,
                     void (*filter)(float **pcm,long channels,long samples,void *filter_param),void *filter_param){
@@ -2066,7 +2075,7 @@ long ov_read_filter(OggVorbis_File *vf,char *buffer,int length,
         vorbis_fpu_setround(&fpu);
         for(j=0;j<samples;j++)
           for(i=0;i<channels;i++){
-            val=vorbis_ftoi(pcm[i][j]*128.f);
+            val=vorbis_ftoi(_clip_sample(pcm[i][j]*128.f,-128.f,127.f));
             if(val>127)val=127;
             else if(val<-128)val=-128;
             *buffer++=val+off;
@@ -2083,7 +2092,7 @@ long ov_read_filter(OggVorbis_File *vf,char *buffer,int length,
               float *src=pcm[i];
               short *dest=((short *)buffer)+i;
               for(j=0;j<samples;j++) {
-                val=vorbis_ftoi(src[j]*32768.f);
+                val=vorbis_ftoi(_clip_sample(src[j]*32768.f,-32768.f,32767.f));
                 if(val>32767)val=32767;
                 else if(val<-32768)val=-32768;
                 *dest=val;
@@ -2099,7 +2108,7 @@ long ov_read_filter(OggVorbis_File *vf,char *buffer,int length,
               float *src=pcm[i];
               short *dest=((short *)buffer)+i;
               for(j=0;j<samples;j++) {
-                val=vorbis_ftoi(src[j]*32768.f);
+                val=vorbis_ftoi(_clip_sample(src[j]*32768.f,-32768.f,32767.f));
                 if(val>32767)val=32767;
                 else if(val<-32768)val=-32768;
                 *dest=val+off;
@@ -2114,7 +2123,7 @@ long ov_read_filter(OggVorbis_File *vf,char *buffer,int length,
           vorbis_fpu_setround(&fpu);
           for(j=0;j<samples;j++)
             for(i=0;i<channels;i++){
-              val=vorbis_ftoi(pcm[i][j]*32768.f);
+              val=vorbis_ftoi(_clip_sample(pcm[i][j]*32768.f,-32768.f,32767.f));
               if(val>32767)val=32767;
               else if(val<-32768)val=-32768;
               val+=off;
@@ -2128,7 +2137,7 @@ long ov_read_filter(OggVorbis_File *vf,char *buffer,int length,
           vorbis_fpu_setround(&fpu);
           for(j=0;j<samples;j++)
             for(i=0;i<channels;i++){
-              val=vorbis_ftoi(pcm[i][j]*32768.f);
+              val=vorbis_ftoi(_clip_sample(pcm[i][j]*32768.f,-32768.f,32767.f));
               if(val>32767)val=32767;
               else if(val<-32768)val=-32768;
               val+=off;
